@@ -13,9 +13,10 @@ list of public-API calls and `close()` calls the handler makes from INSIDE the c
 whether it then raises.  `WF cfg` says: `max_calls = 1` (value generated from the source), the
 shielded objects exist, and the listener the user registered has not been garbage-collected.
 
-* `notify_is_first_report`  what the DeviceListener has received so far is exactly the first
-                            report made (nothing when no listener is set)
-* `notify_le_one`           … hence at most one notification, ever
+* `notify_is_first_report`  what all DeviceListener objects together have received so far is nothing
+                            or exactly the first report made
+* `notify_le_one`           … hence at most one notification, ever — also when the application assigns
+                            `atv.listener` again (same object / new object / None) anywhere in the history
 * `notify_never_changes`    the log is append-only: once delivered, nothing else follows
 * `blocked_after`           after close()/any report — also one whose handler raises or re-enters —
                             every protected member raises BlockedStateError, whatever happens in
@@ -47,7 +48,7 @@ open PyatvModel.Gen.C09 (Row Guard)
 abbrev after (cfg : Cfg) (evs : List Ev) : St := run cfg (init cfg) evs
 
 theorem inv_after (cfg : Cfg) (wf : WF cfg) (evs : List Ev) : Inv cfg (after cfg evs) :=
-  inv_run wf evs _ (inv_init cfg)
+  inv_run wf evs _ (inv_init wf)
 
 /-- a history that contains a closing event (user close or any report, whatever the user's
     handler does) ends closed -/
@@ -60,23 +61,36 @@ theorem closed_after (cfg : Cfg) (wf : WF cfg) (pre post : List Ev) (e : Ev)
 
 /-! ## reported once: the first one -/
 
-/-- **C09, notification.**  At every point of every history the calls received by the user's
-    DeviceListener are: nothing if no report was made yet (or no listener is set), otherwise
+/-- **C09, notification.**  At every point of every history — including histories in which the
+    application assigns `atv.listener` again (the same object, a new object, None) at any
+    position — the calls received by ALL DeviceListener objects together are: nothing, or
     exactly the first report that was made — by whichever protocol, re-entrantly from inside
     `close()` or not, whether or not the user also closes, and whatever the handler does. -/
 theorem notify_is_first_report (cfg : Cfg) (wf : WF cfg) (evs : List Ev) :
-    (after cfg evs).notified = firstOf cfg.listener (after cfg evs).reports :=
-  (inv_after cfg wf evs).1.notif
+    (after cfg evs).notified = [] ∨ (after cfg evs).notified = (after cfg evs).reports.take 1 := by
+  obtain ⟨l, hl⟩ := (inv_after cfg wf evs).1.notif
+  rw [hl]
+  cases l <;> simp [firstOf]
 
-theorem notify_alive (cfg : Cfg) (wf : WF cfg) (evs : List Ev) (hl : cfg.listener = .alive) :
-    (after cfg evs).notified = (after cfg evs).reports.take 1 := by
-  rw [notify_is_first_report cfg wf evs, hl]; rfl
-
-/-- **C09, at most one notification** over the lifetime of the device object. -/
+/-- **C09, at most one notification** over the lifetime of the device object, counted over
+    every listener object registered during that lifetime: `Ev.setListener` may occur anywhere
+    in `evs`. -/
 theorem notify_le_one (cfg : Cfg) (wf : WF cfg) (evs : List Ev) :
     (after cfg evs).notified.length ≤ 1 := by
-  rw [notify_is_first_report cfg wf evs]
+  obtain ⟨l, hl⟩ := (inv_after cfg wf evs).1.notif
+  rw [hl]
   exact firstOf_length_le _ _
+
+/-- the case the suite never exercises, spelled out: a report is delivered, the application
+    registers a listener again, more reports arrive — still one notification -/
+theorem notify_le_one_after_reassign (cfg : Cfg) (wf : WF cfg) (pre mid post : List Ev) (b : Bool) :
+    (after cfg (pre ++ (mid ++ .setListener b :: post))).notified.length ≤ 1 :=
+  notify_le_one cfg wf _
+
+/-- the budget belongs to the device object: assigning the listener leaves `calls_made` and
+    everything else alone -/
+theorem setListener_changes_nothing_else (cfg : Cfg) (s : St) (b : Bool) :
+    (step cfg s (.setListener b)).1 = { s with listener := if b then .alive else .none } := rfl
 
 /-- the two logs only ever grow (for every configuration, well-formed or not) -/
 theorem logs_append_only (cfg : Cfg) (evs more : List Ev) :
@@ -383,6 +397,22 @@ example :
     let cfg := facadeCfg .alive [⟨[], 1⟩]
     outputs cfg (init cfg) [.api 28, .report 0 (.lost 1) ret, .dropDevice, .api 28, .api 10]
       = [.pass, .none, .none, .blocked, .gone] := by
+  decide
+
+/-- protocol 0 loses the connection (delivered); the application registers a new listener; the
+    report that the teardown provokes one tick later and a report by protocol 1 reach nobody -/
+example :
+    let cfg := facadeCfg .alive [⟨[], 1⟩, ⟨[], 0⟩]
+    let evs := [Ev.report 0 (.lost 1) ret, .setListener true, .report 0 .closed ret, .setListener false,
+                .setListener true, .report 1 .closed ret]
+    (after cfg evs).notified = [⟨0, .lost 1⟩] ∧ (after cfg evs).callsMade = 3 := by
+  decide
+
+/-- no listener when the first report comes, one is registered afterwards: the budget is
+    spent, nobody is notified -/
+example :
+    let cfg := facadeCfg .none [⟨[], 1⟩]
+    (after cfg [.report 0 .closed ret, .setListener true, .report 0 (.lost 2) ret]).notified = [] := by
   decide
 
 /-- `BenignProtos` is met by protocols whose close-time handlers do not raise -/
